@@ -72,21 +72,22 @@ type Violation struct {
 }
 
 type harnessResult struct {
-	mu            sync.Mutex
-	Name          string
-	Paths         int
-	Ended         map[string]int // normal ends by reason
-	Aborts        map[string]int // inconclusive ends by reason
-	Violations    map[string]*Violation
-	Asserts       map[string]int
-	AssertQueries int
-	Reached       map[string]int
-	Steps         int64
-	MaxSteps      int
-	Inconclusive  map[string]int
-	FeasUnknown   int
-	Samples       []string
-	EngineErrors  []string
+	mu               sync.Mutex
+	Name             string
+	Paths            int
+	Ended            map[string]int // normal ends by reason
+	Aborts           map[string]int // inconclusive ends by reason
+	Violations       map[string]*Violation
+	Asserts          map[string]int
+	AssertQueries    int
+	Reached          map[string]int
+	Steps            int64
+	MaxSteps         int
+	Inconclusive     map[string]int
+	FeasUnknown      int
+	Samples          []string
+	EngineErrors     []string
+	lastNewViolation string
 }
 
 func newHarnessResult(name string) *harnessResult {
